@@ -122,15 +122,22 @@ def reorder(ctx, obs, rule='REORDER'):
         obs.check(ok, rule, q, 'rows and columns are permuted by the same order',
                   f'`{norm(c)}` does not use `{param}` for both rows and columns: values move to other condition pairs', '',
                   where(prog, f, c))
-    loops = [n for n in ast.walk(f.node) if isinstance(n, ast.For) and isinstance(n.iter, ast.Call)
-             and isinstance(n.iter.func, ast.Attribute) and n.iter.func.attr == 'items']
-    ok_desc = False
-    for lp in loops:
-        for n in ast.walk(lp):
-            if isinstance(n, ast.ListComp) and isinstance(n.generators[0].iter, ast.Name) and n.generators[0].iter.id == param:
-                ok_desc = True
-    obs.check(ok_desc, rule, q, 'every pattern descriptor is permuted by the same order',
-              'no loop over pattern_descriptors.items() rebuilding each entry in the new order', '', where(prog, f, f.node))
+    # every value stored into self.pattern_descriptors[...] is a GATHER by the order (new[i] = old[order[i]]), like the matrices;
+    # a scatter (buf[order] = old) applies the inverse permutation and detaches labels from values
+    stores = [n for n in ast.walk(f.node) if isinstance(n, ast.Assign) and isinstance(n.targets[0], ast.Subscript)
+              and isinstance(n.targets[0].value, ast.Attribute) and n.targets[0].value.attr == 'pattern_descriptors']
+    if not stores:
+        obs.bad(rule, q, 'every pattern descriptor is permuted by the same order',
+                'no store into self.pattern_descriptors[...]: the descriptors keep the old order', where(prog, f, f.node))
+    for st in stores:
+        kind, why = _perm_application(f.node, st.value, param)
+        con = 'every pattern descriptor is permuted by the same order (gathered like rows and columns)'
+        if kind == 'gather':
+            obs.ok(rule, q, con, why, where(prog, f, st))
+        elif kind in ('scatter', 'none'):
+            obs.bad(rule, q, con, f'`{norm(st)[:80]}`: {why}', where(prog, f, st))
+        else:
+            obs.unk(rule, q, con, f'`{norm(st)[:80]}`: {why}', where(prog, f, st))
     # stored back as vectors
     obs.check(any(isinstance(n, ast.Assign) and isinstance(n.targets[0], ast.Attribute) and n.targets[0].attr == 'dissimilarities'
                   for n in ast.walk(f.node)), rule, q, 'the permuted matrices are stored back', 'no assignment to '
@@ -189,3 +196,40 @@ def append_pairing(ctx, obs, rule='AXIS-pair'):
         ok2 = len(a) == 2 and all(isinstance(x, ast.Attribute) and x.attr == 'rdm_descriptors' for x in a)
         obs.check(ok2, rule, q, 'rdm descriptors of the appended RDMs are appended to the rdm descriptors',
                   f'`{norm(c.node)[:80]}`', '', where(prog, f, c.node))
+
+
+def _perm_application(fnode, value: ast.expr, order: str, depth=0):
+    """how `value` applies the permutation held in variable `order`: 'gather' (old[order] / [old[i] for i in order] / take),
+    'scatter' (a buffer filled through buf[order] = old), else 'unknown'"""
+    def is_order(x):
+        if isinstance(x, ast.Name) and x.id == order:
+            return True
+        return isinstance(x, ast.Call) and x.args and is_order(x.args[0]) and \
+            (getattr(x.func, 'attr', None) or getattr(x.func, 'id', '')) in ('asarray', 'array', 'list', 'tuple')
+    v = value
+    if isinstance(v, ast.Call) and (getattr(v.func, 'attr', None) or getattr(v.func, 'id', '')) in ('array', 'asarray', 'list', 'tuple') and v.args:
+        return _perm_application(fnode, v.args[0], order, depth)
+    if isinstance(v, ast.ListComp) and len(v.generators) == 1 and is_order(v.generators[0].iter) \
+            and isinstance(v.generators[0].target, ast.Name) and isinstance(v.elt, ast.Subscript) \
+            and isinstance(v.elt.slice, ast.Name) and v.elt.slice.id == v.generators[0].target.id:
+        return 'gather', 'list comprehension over the order'
+    if isinstance(v, ast.Subscript) and is_order(v.slice):
+        return 'gather', 'indexed by the order'
+    if isinstance(v, ast.Call) and (getattr(v.func, 'attr', None) or '') == 'take' and any(is_order(a) for a in v.args):
+        return 'gather', 'np.take by the order'
+    if isinstance(v, ast.Name) and depth < 3:
+        scat = [n for n in ast.walk(fnode) if isinstance(n, ast.Assign) and isinstance(n.targets[0], ast.Subscript)
+                and isinstance(n.targets[0].value, ast.Name) and n.targets[0].value.id == v.id and is_order(n.targets[0].slice)]
+        if scat:
+            return 'scatter', (f'`{norm(scat[0])[:60]}` writes old entry i to position {order}[i] (the inverse permutation), while rows '
+                               f'and columns take entry {order}[i] to position i')
+        defs = [n for n in ast.walk(fnode) if isinstance(n, ast.Assign) and isinstance(n.targets[0], ast.Name) and n.targets[0].id == v.id]
+        kinds = {_perm_application(fnode, d.value, order, depth + 1)[0] for d in defs}
+        if kinds == {'gather'}:
+            return 'gather', 'through a local'
+        if (defs and kinds == {'none'}) or (not defs and v.id != order):
+            return 'none', f'the stored value does not involve `{order}`: the descriptor keeps the old order'
+        return 'unknown', 'value is a local that is not recognisably gathered by the order'
+    if not any(isinstance(n, ast.Name) and n.id == order for n in ast.walk(v)) and not isinstance(v, ast.Name):
+        return 'none', f'the stored value does not involve `{order}`: the descriptor keeps the old order'
+    return 'unknown', 'not a recognised way of applying the order'
